@@ -119,6 +119,10 @@ def inputs(tier, seed, corpus):
         yield '// c\n' * (nrep // 2) + 'a'
         yield '(' * (nrep // 20) + 'a' + ')' * (nrep // 20)
         yield 'a' + '+a' * nrep + ';'
+    # errors on a later line, for every kind of line terminator (also inside comments and after string continuations)
+    for lt in ('\n', '\r', '\r\n', '\u2028', '\u2029'):
+        for head in ('a%sb c', 'a;%s  b c', '/* x%sy */ b c', 'a = "s\\%st" b', 'a;%s%s)', '// c%s  @'):
+            yield head.replace('%s', lt)
     yield '/x\ny/ /'
     yield 'a = /x\ny/ )'
     yield '"\\\n" +'
